@@ -8,7 +8,7 @@
                           never paired when the port heuristic contradicts the handshake flags *)
 From Coq Require Import List ZArith Bool.
 From HN Require Import Model.Uptime Spec.UptimeSpec
-  Proofs.UptimeProofs Proofs.UptimeEstProofs Proofs.UptimeTrackProofs Proofs.UptimeHistProofs.
+  Proofs.UptimeProofs Proofs.UptimeEstProofs Proofs.UptimeTrackProofs Proofs.UptimeHistProofs Proofs.UptimeFloat.
 Import ListNotations.
 Open Scope Z_scope.
 
@@ -175,3 +175,18 @@ Theorem C19_constants_match_source :
   (10 * Consts.src_uptime_GUESS_TOLERANCE_milli = 1000)%Z.
 Proof. exact ConstTieUptime.uptime_constants_tie. Qed.
 Print Assumptions C19_constants_match_source.
+
+(* ---- binary64: the estimator computed with IEEE-754 double arithmetic (Flocq: round radix2
+        (FLT_exp (-1074) 53) ZnearestE after every / * -, f64::round = ZnearestA, % exact, `as u32`
+        truncation, the literal 0.10 = nearest double) returns exactly what the exact-rational MODEL
+        returns, for every pair of observations.  This is the former "float separation" assumption.
+        Depends on the standard-library axioms of the classical reals (listed in props/C19.json). ---- *)
+Theorem C19_float_exact :
+  forall t1 v1 t2 v2 : Z,
+    0 <= v2 < 4294967296 -> f64_estimate t1 v1 t2 v2 = model_estimate t1 v1 t2 v2.
+Proof. exact f64_estimate_eq. Qed.
+Check C19_float_exact :
+  forall t1 v1 t2 v2 : Z,
+    0 <= v2 < 4294967296 -> f64_estimate t1 v1 t2 v2 = model_estimate t1 v1 t2 v2.
+Set Printing Width 400.
+Print Assumptions C19_float_exact.
